@@ -264,3 +264,199 @@ R.contract(
     locals={"norm": ITEMS, "used": ITEMS, "pairs_updated": "int", "cap_left": "int"},
     abstract_str_order=True,   # ids are only ever compared: their order is an arbitrary total order here (see interp.abstract_str_le)
 )
+
+# ------------------------------------------------------------------------------------------------ history lemma
+def _bounded_under_history():
+    """L bounded-under-history: `every edge weight lies in [clamp_min, clamp_max]` as an invariant of histories over
+    {observe, tick}, from the per-call clauses proved above:
+      observe : a record is either unchanged or its weight is inside the clamp   (written-weights-within-clamp)
+      tick    : a surviving weight is w * factor with 0 < factor <= 1            (survivors-decayed-by-factor, factor)
+    The tick step only preserves the invariant when the clamp interval contains 0; the validator
+    (configs/validate.py, graph.update) accepts any clamp_min < clamp_max.  The last goal states the step for exactly
+    the validator-accepted configurations and is refuted: a real finding (native reproduction:
+    replay_builders/c18_bounded_under_history.py -- clamp [0.5, 0.9], one observe gives 0.5, one tick 0.49827)."""
+    import z3
+    w, w2, f, lo, hi = z3.Reals("w w2 factor clamp_min clamp_max")
+    inside = lambda x: z3.And(lo <= x, x <= hi)
+    return [
+        ("observe_step_preserves", [lo < hi, inside(w), z3.Or(w2 == w, inside(w2))], inside(w2)),
+        ("new_edge_starts_inside", [lo < hi, inside(w2)], inside(w2)),
+        ("tick_step_preserves_when_clamp_contains_zero", [lo <= 0, 0 <= hi, inside(w), 0 < f, f <= 1, w2 == w * f], inside(w2)),
+        ("tick_step_preserves_for_validator_accepted_clamp", [lo < hi, inside(w), 0 < f, f <= 1, w2 == w * f], inside(w2)),
+    ]
+
+
+R.lemma("bounded_under_history", "C18", _bounded_under_history)
+
+# ------------------------------------------------------------------------------------------------ apply_merge / apply_split
+R.dictrec("MergeCand", {"type": "str", "nodes": "List[str]", "size": "int", "avg_w": "float", "diameter": "int", "signature": "str"})
+R.dictrec("SplitCand", {"type": "str", "original": "List[str]", "parts": "List[List[str]]", "removed_edges": "int",
+                        "orig_edges": "int", "signature": "str"})
+M = "state.graph['meta']"
+EDGES_NODES_SAME = "seq_eq(" + E + ", " + OE + ") and " + NODES_SAME
+ML = M + "['merges']"
+OML = "old(" + M + "['merges'])"
+SL = M + "['splits']"
+OSL = "old(" + M + "['splits'])"
+
+R.contract(
+    GEL + "apply_merge", "C18",
+    types={"ctx": "GelCtx", "state": "GelState", "cluster": "MergeCand"},
+    ensures=[
+        ("gate-off-state-untouched", "implies(not " + ENABLED + ", seq_eq(" + ML + ", " + OML + ") and result['size'] == 0)"),
+        ("graph-untouched", EDGES_NODES_SAME),
+        ("annotation-appended-only",
+         "implies(" + ENABLED + ", len(" + ML + ") == len(" + OML + ") + 1 and forall(i, 0 <= i < len(" + OML + "), " + ML + "[i] == " + OML + "[i]))"),
+        ("annotation-is-the-cluster",
+         "implies(" + ENABLED + ", seq_eq(" + ML + "[len(" + OML + ")]['nodes'], cluster['nodes']) and "
+         + ML + "[len(" + OML + ")]['size'] == cluster['size'] and " + ML + "[len(" + OML + ")]['avg_w'] == cluster['avg_w'] and "
+         + ML + "[len(" + OML + ")]['diameter'] == cluster['diameter'] and " + ML + "[len(" + OML + ")]['signature'] == cluster['signature'])"),
+        ("other-meta-untouched",
+         "seq_eq(" + SL + ", " + OSL + ") and seq_eq(" + M + "['promotions'], old(" + M + "['promotions'])) and "
+         + M + "['concept_nodes_count'] == old(" + M + "['concept_nodes_count']) and " + M + "['edges_count'] == old(" + M + "['edges_count'])"),
+        ("cluster-untouched", "seq_eq(cluster['nodes'], old(cluster['nodes']))"),
+    ],
+    raises="none",
+)
+
+R.contract(
+    GEL + "apply_split", "C18",
+    types={"ctx": "GelCtx", "state": "GelState", "split": "SplitCand"},
+    ensures=[
+        ("gate-off-state-untouched", "implies(not " + ENABLED + ", seq_eq(" + SL + ", " + OSL + ") and result['parts'] == 0)"),
+        ("graph-untouched", EDGES_NODES_SAME),
+        ("annotation-appended-only",
+         "implies(" + ENABLED + ", len(" + SL + ") == len(" + OSL + ") + 1 and forall(i, 0 <= i < len(" + OSL + "), " + SL + "[i] == " + OSL + "[i]))"),
+        ("annotation-is-the-split",
+         "implies(" + ENABLED + ", seq_eq(" + SL + "[len(" + OSL + ")]['original'], split['original']) and "
+         "len(" + SL + "[len(" + OSL + ")]['parts']) == len(split['parts']) and "
+         "forall(i, 0 <= i < len(split['parts']), seq_eq(" + SL + "[len(" + OSL + ")]['parts'][i], split['parts'][i])) and "
+         + SL + "[len(" + OSL + ")]['removed_edges'] == split['removed_edges'] and "
+         + SL + "[len(" + OSL + ")]['orig_edges'] == split['orig_edges'] and " + SL + "[len(" + OSL + ")]['signature'] == split['signature'] and "
+         "result['parts'] == len(split['parts']) and result['removed_edges'] == split['removed_edges'])"),
+        ("other-meta-untouched",
+         "seq_eq(" + ML + ", " + OML + ") and seq_eq(" + M + "['promotions'], old(" + M + "['promotions'])) and "
+         + M + "['concept_nodes_count'] == old(" + M + "['concept_nodes_count']) and " + M + "['edges_count'] == old(" + M + "['edges_count'])"),
+        ("split-untouched", "seq_eq(split['original'], old(split['original'])) and len(split['parts']) == len(old(split['parts']))"),
+    ],
+    raises="none",
+)
+
+# ------------------------------------------------------------------------------------------------ apply_promotion
+# apply_promotion creates edge records with "attrs": {} (no coact / last_seen_turn keys): for this function the attrs
+# of an edge are modelled as a plain Dict[str, int] (it never reads them), node records as {"id","label","attrs":{"kind"}}
+R.mutrec("PEdgeRec", {"id": "str", "src": "str", "dst": "str", "weight": "float", "rel": "str",
+                      "updated_at": "Optional[str]", "attrs": "Dict[str, int]"})
+R.mutrec("PNodeRec", {"id": "str", "label": "Optional[str]", "attrs": "NodeAttrs"})
+R.dictrec("PGelStore", {"nodes": "Dict[str, PNodeRec]", "edges": "Dict[str, PEdgeRec]", "meta": "GelMeta"})
+R.objtype("PGelState", {"graph": "PGelStore"})
+R.dictrec("PromoRec", {"concept_id": "str", "label": "str", "members": "List[str]", "attach_weight": "float"})
+
+N = "state.graph['nodes']"
+ON = "old(state.graph['nodes'])"
+CID = "promo['concept_id']"
+AW = "promo['attach_weight']"
+MEM = "promo['members']"
+ATTACHED = "exists(t, 0 <= t < {n}, k == ekey({cid}, {mem}[t]))"
+P_FRAME = [
+    "forall((k, 'str'), k in " + OE + ", k in {e})",
+    "forall((k, 'str'), k in {e}, (k in " + OE + " and {e}[k] == " + OE + "[k]) or " + ATTACHED + ")",
+    "forall(t, 0 <= t < {n}, ekey({cid}, {mem}[t]) in {e} and {e}[ekey({cid}, {mem}[t])]['weight'] == {w} and "
+    "{e}[ekey({cid}, {mem}[t])]['rel'] == 'concept')",
+    "forall((k, 'str'), k in {e} and not (k in " + OE + "), {e}[k]['id'] == k and k == ekeyf({e}[k]['src'], {e}[k]['dst']) and "
+    "{e}[k]['src'] <= {e}[k]['dst'] and {e}[k]['rel'] == 'concept' and {e}[k]['weight'] == {w} and is_none({e}[k]['updated_at']) "
+    "and len({e}[k]['attrs']) == 0)",
+    "forall((k, 'str'), k in {e} and k in " + OE + ", {e}[k]['id'] == " + OE + "[k]['id'] and {e}[k]['src'] == " + OE + "[k]['src'] and "
+    "{e}[k]['dst'] == " + OE + "[k]['dst'] and {e}[k]['updated_at'] == " + OE + "[k]['updated_at'] and "
+    "seq_eq({e}[k]['attrs'], " + OE + "[k]['attrs']))",
+]
+P_NAMES = ["no-edge-removed", "only-concept-member-edges-touched", "every-member-attached-with-weight", "new-edges-canonical",
+           "existing-edges-keep-identity"]
+PROMO_TYPES = {"ctx": "GelCtx", "state": "PGelState", "promo": "PromoRec"}
+
+R.contract(
+    GEL + "apply_promotion", "C18",
+    types=PROMO_TYPES,
+    requires=[("validator-ranges", VALIDATOR)],
+    ensures=[
+        ("gate-off-state-untouched",
+         "implies(not " + ENABLED + ", seq_eq(" + E + ", " + OE + ") and " + NODES_SAME + " and " + META_SAME + " and "
+         "state.graph['meta']['edges_count'] == old(state.graph['meta']['edges_count']) and result['members'] == 0)"),
+        ("concept-node-upserted-only",
+         "implies(" + ENABLED + ", " + CID + " in " + N + " and "
+         "forall((k, 'str'), k != " + CID + ", (k in " + N + ") == (k in " + ON + ")) and "
+         "forall((k, 'str'), k in " + ON + ", k in " + N + " and " + N + "[k] == " + ON + "[k]) and "
+         "implies(not (" + CID + " in " + ON + "), " + N + "[" + CID + "]['id'] == " + CID + " and " + N + "[" + CID + "]['label'] == promo['label'] "
+         "and " + N + "[" + CID + "]['attrs']['kind'] == 'concept'))"),
+        ("concept-count-bumped-iff-new",
+         "implies(" + ENABLED + ", state.graph['meta']['concept_nodes_count'] == old(state.graph['meta']['concept_nodes_count']) + "
+         "ite(" + CID + " in " + ON + ", 0, 1))"),
+        ("edges-count-exact", "implies(" + ENABLED + ", state.graph['meta']['edges_count'] == len(" + E + "))"),
+        ("annotations-untouched",
+         "seq_eq(" + ML + ", " + OML + ") and seq_eq(" + SL + ", " + OSL + ") and seq_eq(" + M + "['promotions'], old(" + M + "['promotions']))"),
+        ("promo-untouched", "seq_eq(" + MEM + ", old(" + MEM + "))"),
+    ] + [(nm, "implies(" + ENABLED + ", " + cl.format(e=E, n="len(" + MEM + ")", cid=CID, mem=MEM, w=AW) + ")")
+         for nm, cl in zip(P_NAMES, P_FRAME)],
+    raises="none",
+    loops={0: {"inv": ["len(members) == len(promo['members'])", "forall(t, 0 <= t < len(members), members[t] == promo['members'][t])"]
+               + [cl.format(e="edges", n="_i", cid="cid", mem="members", w="w") for cl in P_FRAME]}},
+    locals={"members": "List[str]"},
+    abstract_str_order=True,
+)
+
+# idempotence (2-run property, reduced to one run): the post-state of a promotion satisfies ALREADY below; from a state
+# that satisfies it the same promotion changes nothing at all
+ALREADY = (CID + " in " + N + " and forall(t, 0 <= t < len(" + MEM + "), ekey(" + CID + ", " + MEM + "[t]) in " + E + " and "
+           + E + "[ekey(" + CID + ", " + MEM + "[t])]['weight'] == " + AW + " and " + E + "[ekey(" + CID + ", " + MEM + "[t])]['rel'] == 'concept') "
+           "and state.graph['meta']['edges_count'] == len(" + E + ")")
+R.contract(
+    GEL + "apply_promotion", "C18", name="apply_promotion[idempotent]", callee=False,
+    types=PROMO_TYPES,
+    requires=[("validator-ranges", VALIDATOR), ("already-promoted", ALREADY)],
+    ensures=[
+        ("second-application-changes-nothing",
+         "seq_eq(" + E + ", " + OE + ") and " + NODES_SAME + " and " + META_SAME + " and "
+         "state.graph['meta']['edges_count'] == old(state.graph['meta']['edges_count'])"),
+    ],
+    raises="none",
+    loops={0: {"inv": ["len(members) == len(promo['members'])", "forall(t, 0 <= t < len(members), members[t] == promo['members'][t])",
+                       "forall((k, 'str'), True, (k in edges) == (k in " + OE + "))", "len(edges) == len(" + OE + ")",
+                       "forall((k, 'str'), k in edges, edges[k] == " + OE + "[k])"]}},
+    locals={"members": "List[str]"},
+    abstract_str_order=True,
+    # under `already-promoted` the node / edge creation branches are dead
+    unreachable_ok=["nodes[cid] = ", "meta['concept_nodes_count'] = ", "rec = {", "edges[key] = rec"],
+)
+
+# ------------------------------------------------------------------------------------------------ promote_clusters
+R.mutrec("ClusterRec", {"type": "str", "nodes": "List[str]", "size": "int", "avg_w": "float", "diameter": "int", "signature": "str"})
+R.mutrec("PromoOut", {"concept_id": "str", "label": "str", "members": "List[str]", "attach_weight": "float"})
+PAW = G + "['promotion']['attach_weight']"
+PROMO_ELEM = ("len({p}['members']) > 0 and {p}['concept_id'] == 'c::' + {p}['members'][0] and "
+              "{p}['attach_weight'] == clampf({aw}, 0 - 1, 1) and "
+              "forall2(a, b, 0 <= a and a < b and b < len({p}['members']), {p}['members'][a] <= {p}['members'][b]) and "
+              "implies({mode} != 'concat_k', {p}['label'] == {p}['members'][0])")
+
+R.contract(
+    GEL + "promote_clusters", "C18",
+    types={"ctx": "GelCtx", "state": "GelState", "clusters": "List[ClusterRec]"},
+    returns="List[PromoOut]",
+    requires=[("validator-ranges", VALIDATOR)],
+    ensures=[
+        ("gate-off-nothing-proposed", "implies(not " + ENABLED + ", len(result) == 0)"),
+        ("at-most-one-per-cluster", "len(result) <= len(clusters)"),
+        ("sorted-by-concept-id", "forall2(i, j, 0 <= i and i < j and j < len(result), result[i]['concept_id'] <= result[j]['concept_id'])"),
+        ("proposals-well-formed",
+         "forall(i, 0 <= i < len(result), " + PROMO_ELEM.format(p="result[i]", aw=PAW, mode=G + "['promotion']['label_mode']") + ")"),
+        ("pure", "seq_eq(" + E + ", " + OE + ") and " + NODES_SAME + " and " + META_SAME + " and "
+                 "state.graph['meta']['edges_count'] == old(state.graph['meta']['edges_count']) and len(clusters) == len(old(clusters)) and "
+                 "forall(i, 0 <= i < len(clusters), clusters[i] == old(clusters)[i])"),
+    ],
+    raises="none",
+    loops={0: {"inv": ["len(promos) <= _i",
+                       "forall(i, 0 <= i < len(promos), " + PROMO_ELEM.format(p="promos[i]", aw="attach_w", mode="mode") + ")"]}},
+    locals={"promos": "List[PromoOut]", "nodes": "List[str]", "nodes_sorted": "List[str]"},
+    # the local re-clamp of attach_weight to [-1, 1] is dead under the validator range -1 <= attach_weight <= 1
+    unreachable_ok=["attach_w = 1.0", "attach_w = -1.0"],
+    abstract_str_order=True,
+)
